@@ -27,6 +27,9 @@ flows! {
     c41_anti_join(a: (u32, u32), b: u32) -> (out: (u32, u32));
     c41_optional_gate(a: u32, g: u32) -> (out: (u32, (usize, u32)));
     c41_tick_scan_top_fold(a: u32) -> (items: (u32, u32), total: u32);
+    c41_ref_top(a: u32) -> (echo: u32, out: u32);
+    c41_ref_tick_two_uses(a: u32) -> (out: (u32, u32));
+    c41_ref_mut_then_ref(a: u32) -> (out: u32);
     c41_tee_two_defers(a: u32) -> (out: (u32, usize));
     c31_batch(a: u32) -> (out: Vec<u32>);
     c31_snapshot(a: u32) -> (out: (usize, usize));
